@@ -32,11 +32,19 @@ META = {
             "(sharper: 20 eps (|p0|+5|p1-p0|+|ts|(4|v0|+2|v1|)) and 20 eps (8|v0|+5|v1|+12|p1-p0|/|ts|)), pos(0)=rnd p0 and vel(0)=rnd v0 "
             "(exact for format numbers), and for the quintic (extra hypothesis rnd 2 = 2, true for binary64) position/velocity/"
             "acceleration at ts are within 1056 eps S5, 3960 eps S5/|ts|, 11880 eps S5/|ts|^2 (+ explicit eta terms), "
-            "S5=S+|ts|^2(|a0|+|a1|); binary64 instances by Flocq; overflow excluded; the septic generator is not covered.",
+            "S5=S+|ts|^2(|a0|+|a1|); binary64 instances by Flocq; overflow excluded; the septic generator is not covered. "
+            "Glue around the modelled core (differential tests, not theorems): the 23 C++ member functions of a_trajpoly3/5/7 (list read "
+            "from the headers on every run; defaulted arguments omitted and spelled out) against the C functions they forward to, all "
+            "state and output arrays compared bit for bit; and one driver generic in a_real built as float, double and long double with "
+            "ASan+UBSan: cubic/quintic generators (ts a power of two, dyadic boundary data; expected coefficients from an exact solve of "
+            "the boundary conditions), pos/vel/acc, c0/c1/c2 into exactly sized guarded arrays, a_poly_eval/evar/swap and xTx/xTy must "
+            "print exactly the expected values in all three builds; the septic (factor 1/6) within 1e-5 of the size of its terms.",
     "note": "Trusted: Coq kernel/vm_compute (primitive floats), the standard real-number axioms (sig_forall_dec, sig_not_dec, "
             "functional_extensionality_dep, classic via Coquelicot) as listed by Print Assumptions; the 'same term, different "
             "NumOps instance' argument between R and binary64; the hand transcription coq/C15/PolyDefs.v, validated bit for bit "
-            "against the C on the generated cases only; gcc -O2 -ffp-contract=off on x86-64 being IEEE binary64 op by op.",
+            "against the C on the generated cases only; gcc -O2 -ffp-contract=off on x86-64 being IEEE binary64 op by op. The glue runs "
+            "(tools/vglue.py, harness/glue/) are differential tests on generated inputs, not theorems; the float and long double builds "
+            "are not modelled in Rocq (the septic there is only compared with the exact solution within a float-sized tolerance).",
     "technique": "Rocq proof over R (field, auto_derive, list induction) + coefficient formulas regenerated from src/trajpoly*.c by a translator and re-tied by conversion on every run, the Horner evaluators and the coefficient swap unrolled for 0..6 coefficients and proved equal to the wrapper model + bit-exact primitive-float model vs C correspondence",
 }
 
@@ -208,3 +216,4 @@ def run(ctx):
     ctx.cov["correspondence_mismatches"] = nd
     for c in cases[:: max(1, len(cases) // 4)][:4]:
         ctx.sample({"case": c[0][:200], "model_expr": c[1][:200]})
+    __import__("vglue").glue(ctx, "C15")   # glue around the modelled core: C++ member wrappers + float / long double builds (differential tests, tools/vglue.py)
